@@ -9,6 +9,7 @@ from typing import Dict, List, Optional, Tuple
 
 from ..astutil import call_name, calls_in, dotted, unparse, walk_local, walk_stmts
 from ..report import Registry, chain, sub
+from ._helpers_rob_B2 import bool_binds, expand, read_aliases, resolved_atom_set, single_binds, transitive_owner
 
 R = Registry(
     "C35",
@@ -55,16 +56,27 @@ def _atom(expr, recv: str) -> Optional[Tuple[str, bool]]:
     return None
 
 
-def _ev(expr, recv, store, env, aliases=()):
+def _ev(expr, recv, store, env, aliases=(), props=None):
     if isinstance(expr, ast.UnaryOp) and isinstance(expr.op, ast.Not):
-        return not _ev(expr.operand, recv, store, env, aliases)
+        return not _ev(expr.operand, recv, store, env, aliases, props)
     if isinstance(expr, ast.BoolOp):
-        vals = [_ev(v, recv, store, env, aliases) for v in expr.values]
-        return all(vals) if isinstance(expr.op, ast.And) else any(vals)
+        # short-circuit evaluation: an operand that is never reached need not be understood
+        is_and = isinstance(expr.op, ast.And)
+        for v in expr.values:
+            r = _ev(v, recv, store, env, aliases, props)
+            if r != is_and:
+                return r
+        return is_and
+    if isinstance(expr, ast.IfExp):
+        return _ev(expr.body if _ev(expr.test, recv, store, env, aliases, props) else expr.orelse, recv, store, env, aliases, props)
+    if isinstance(expr, ast.Call) and isinstance(expr.func, ast.Name) and expr.func.id == "bool" and len(expr.args) == 1 and not expr.keywords:
+        return _ev(expr.args[0], recv, store, env, aliases, props)
     if isinstance(expr, ast.Constant) and isinstance(expr.value, bool):
         return expr.value
     if isinstance(expr, ast.Name) and expr.id in env:
         return env[expr.id]
+    if isinstance(expr, ast.Name) and expr.id in aliases:
+        return True  # truthiness of a listener collection: a listener is registered
     if (isinstance(expr, ast.Compare) and len(expr.ops) == 1 and isinstance(expr.ops[0], (ast.IsNot, ast.Is))
             and isinstance(expr.left, ast.Name) and expr.left.id in aliases
             and isinstance(expr.comparators[0], ast.Constant) and expr.comparators[0].value is None):
@@ -73,7 +85,67 @@ def _ev(expr, recv, store, env, aliases=()):
     if a is not None:
         v = store[a[0]]
         return v if a[1] else not v
+    if props is not None and isinstance(expr, ast.Attribute) and dotted(expr.value) == recv:
+        r = props(expr.attr, store)
+        if r is not None:
+            return r
     raise _Unknown(unparse(expr))
+
+
+def _run_body(body, recv, store, props=None):
+    """Value returned by a side-effect free boolean function body (guard clauses, boolean locals, if/else, one or many
+    returns) under the assignment `store`; _Unknown for anything else."""
+    env: Dict[str, bool] = {}
+
+    def block(stmts):
+        for st in stmts:
+            if isinstance(st, ast.Pass) or (isinstance(st, ast.Expr) and isinstance(st.value, ast.Constant)):
+                continue
+            if isinstance(st, ast.If):
+                r = block(st.body if _ev(st.test, recv, store, env, (), props) else st.orelse)
+                if r is not None:
+                    return r
+                continue
+            if isinstance(st, ast.Return):
+                if st.value is None:
+                    raise _Unknown("bare return")
+                return bool(_ev(st.value, recv, store, env, (), props))
+            if isinstance(st, (ast.Assign, ast.AnnAssign)):
+                tg = st.targets if isinstance(st, ast.Assign) else [st.target]
+                if len(tg) == 1 and isinstance(tg[0], ast.Name) and st.value is not None:
+                    try:
+                        env[tg[0].id] = _ev(st.value, recv, store, env, (), props)
+                    except _Unknown:
+                        env.pop(tg[0].id, None)  # unknown only matters if it is read later
+                    continue
+            raise _Unknown(f"statement `{unparse(st).splitlines()[0]}`")
+        return None
+
+    r = block(body)
+    if r is None:
+        raise _Unknown("a path falls off the end without returning a value")
+    return r
+
+
+class _Pred:
+    """One lifecycle predicate as a boolean function of the atoms (evaluated over all its return paths)."""
+
+    def __init__(self, cls, f):
+        self.cls, self.f = cls, f
+        rets = [n for n in walk_local(f.node) if isinstance(n, ast.Return)]
+        self.text = unparse(rets[0].value) if len(rets) == 1 and rets[0].value is not None else f"{len(rets)} return paths"
+
+    def _props(self, depth):
+        def props(name, store):
+            g = self.cls.methods.get(name)
+            # another property of the same class (an extracted sub-formula); the atoms themselves never get here
+            if g is None or depth >= 3 or [p for p in g.params if p != "self"] or name in ("_attached",):
+                return None
+            return _run_body(g.node.body, "self", store, self._props(depth + 1))
+        return props
+
+    def __call__(self, store) -> bool:
+        return _run_body(self.f.node.body, "self", store, self._props(0))
 
 
 def _predicates(ctx):
@@ -83,15 +155,14 @@ def _predicates(ctx):
         f = cls.methods.get(p)
         ctx.require(f is not None, f"InstanceState.{p} is not defined")
         ctx.functions_analysed.add(f.key)
-        rets = [n for n in walk_local(f.node) if isinstance(n, ast.Return)]
-        ctx.require(len(rets) == 1 and rets[0].value is not None, f"InstanceState.{p} is not a single return expression")
-        out[p] = (f, rets[0].value)
+        ctx.require(any(isinstance(n, ast.Return) and n.value is not None for n in walk_local(f.node)), f"InstanceState.{p} returns no value")
+        out[p] = (f, _Pred(cls, f))
     return out
 
 
 def _state_name(preds, K, A, D) -> List[str]:
     store = {"K": K, "A": A, "D": D}
-    return [p for p, (f, e) in preds.items() if _ev(e, "self", store, {})]
+    return [p for p, (f, e) in preds.items() if e(store)]
 
 
 def _one(preds, K, A, D) -> str:
@@ -118,11 +189,11 @@ def r1(ctx):
     table = {}
     for p, (f, e) in preds.items():
         try:
-            sat = [a for a in itertools.product([False, True], repeat=3) if _ev(e, "self", dict(zip("KAD", a)), {})]
+            sat = [a for a in itertools.product([False, True], repeat=3) if e(dict(zip("KAD", a)))]
         except _Unknown as u:
-            ctx.error(f"{f.key}: `{u}` is not one of the atoms key is None / _attached / _deleted")
+            ctx.error(f"{f.key}: `{u}` is not a boolean function of the atoms key is None / _attached / _deleted")
         table[p] = sat
-        ctx.check(bool(sat), f.key, f"predicate `{unparse(e)}` is unsatisfiable", f"`{unparse(e)}` holds for {len(sat)} assignment(s)", f.loc)
+        ctx.check(bool(sat), f.key, f"predicate `{e.text}` is unsatisfiable", f"`{e.text}` holds for {len(sat)} assignment(s)", f.loc)
     for K, A, D in itertools.product([False, True], repeat=3):
         holds = _state_name(preds, K, A, D)
         ctx.check(len(holds) == 1, f"{STATE}::InstanceState:lifecycle[{_label(K, A, D)}]",
@@ -139,12 +210,32 @@ def _declared_events(ctx):
     return cls, out
 
 
+def _is_dispatch_read(v) -> bool:
+    return isinstance(v, ast.Attribute) and v.attr == "dispatch"
+
+
+def _dispatch_names(fn) -> set:
+    """Locals of fn that are only ever bound to `<x>.dispatch` (`dispatch = session.dispatch`)."""
+    return read_aliases(fn, _is_dispatch_read)
+
+
+def _is_dispatcher(e, dnames=()) -> bool:
+    return _is_dispatch_read(e) or (isinstance(e, ast.Name) and e.id in dnames)
+
+
 def _dispatch_attrs(tree):
-    """[(event name, Attribute node)] for `<x>.dispatch.<event>` reads."""
+    """[(event name, Attribute node)] for `<x>.dispatch.<event>` reads, also through a local bound to `<x>.dispatch`."""
     out = []
     for n in ast.walk(tree):
-        if isinstance(n, ast.Attribute) and isinstance(n.value, ast.Attribute) and n.value.attr == "dispatch":
+        if isinstance(n, ast.Attribute) and _is_dispatch_read(n.value):
             out.append((n.attr, n))
+    for fn in ast.walk(tree):
+        if isinstance(fn, (ast.FunctionDef, ast.AsyncFunctionDef)):
+            dn = _dispatch_names(fn)
+            if dn:
+                for n in walk_local(fn):
+                    if isinstance(n, ast.Attribute) and isinstance(n.value, ast.Name) and n.value.id in dn and isinstance(n.ctx, ast.Load):
+                        out.append((n.attr, n))
     return out
 
 
@@ -179,12 +270,13 @@ def r2(ctx):
 class _Sim:
     """Sequential interpretation of one dispatch function over the lifecycle atoms of one receiver."""
 
-    def __init__(self, ctx, fkey, recv, aliases, params):
+    def __init__(self, ctx, fkey, recv, aliases, params, dnames=()):
         self.ctx = ctx
         self.fkey = fkey
         self.recv = recv
         self.aliases = aliases  # local name -> event name
         self.params = params
+        self.dnames = set(dnames)  # locals bound to `<x>.dispatch`
 
     def run(self, body, store, env):
         self.store = dict(store)
@@ -200,19 +292,24 @@ class _Sim:
             if isinstance(n, ast.Call):
                 if isinstance(n.func, ast.Name) and n.func.id in self.aliases:
                     return True
-                if isinstance(n.func, ast.Attribute) and LIFECYCLE_RE.match(n.func.attr) and isinstance(n.func.value, ast.Attribute) and n.func.value.attr == "dispatch":
+                if isinstance(n.func, ast.Attribute) and LIFECYCLE_RE.match(n.func.attr) and _is_dispatcher(n.func.value, self.dnames):
                     return True
         return False
 
-    def _block(self, body):
+    def _block(self, body) -> bool:
+        """True when the pass ended (continue / return / break / raise) inside `body`."""
         for st in body:
+            if isinstance(st, (ast.Continue, ast.Return, ast.Break, ast.Raise)):
+                return True
             if isinstance(st, ast.If):
                 try:
                     t = _ev(st.test, self.recv, self.store, self.env, self.aliases)
                 except _Unknown as u:
-                    self.ctx.require(not self._relevant(st), f"{self.fkey}: cannot evaluate `{u}` guarding a lifecycle dispatch / state write")
+                    ends = any(isinstance(x, (ast.Continue, ast.Return, ast.Break)) for x in ast.walk(st))
+                    self.ctx.require(not self._relevant(st) and not ends, f"{self.fkey}: cannot evaluate `{u}` guarding a lifecycle dispatch / state write")
                     continue
-                self._block(st.body if t else st.orelse)
+                if self._block(st.body if t else st.orelse):
+                    return True
                 continue
             if isinstance(st, ast.Assign) and len(st.targets) == 1 and isinstance(st.targets[0], ast.Name):
                 try:
@@ -234,22 +331,27 @@ class _Sim:
                 fn = st.value.func
                 if isinstance(fn, ast.Name) and fn.id in self.aliases:
                     self.fired.append(self.aliases[fn.id])
-                elif isinstance(fn, ast.Attribute) and isinstance(fn.value, ast.Attribute) and fn.value.attr == "dispatch" and LIFECYCLE_RE.match(fn.attr):
+                elif isinstance(fn, ast.Attribute) and _is_dispatcher(fn.value, self.dnames) and LIFECYCLE_RE.match(fn.attr):
                     self.fired.append(fn.attr)
                 continue
             if isinstance(st, (ast.For, ast.While, ast.Try, ast.With)):
                 self.ctx.require(not self._relevant(st), f"{self.fkey}: lifecycle dispatch inside a nested `{type(st).__name__}` is not modelled")
+        return False
 
 
 def _event_aliases(fn) -> Dict[str, str]:
-    """`x = <...>.dispatch.<event> or None` / `x = <...>.dispatch.<event>` -> {x: event}."""
+    """`x = <...>.dispatch.<event> or None` / `x = <...>.dispatch.<event>` -> {x: event} (the dispatcher may be a local
+    bound to `<...>.dispatch`)."""
     out = {}
+    dn = _dispatch_names(fn)
     for st in walk_stmts(fn.body):
         if isinstance(st, ast.Assign) and len(st.targets) == 1 and isinstance(st.targets[0], ast.Name):
             v = st.value
             if isinstance(v, ast.BoolOp) and isinstance(v.op, ast.Or) and len(v.values) == 2 and isinstance(v.values[1], ast.Constant) and v.values[1].value is None:
                 v = v.values[0]
-            if isinstance(v, ast.Attribute) and isinstance(v.value, ast.Attribute) and v.value.attr == "dispatch" and LIFECYCLE_RE.match(v.attr):
+            if isinstance(v, ast.IfExp) and isinstance(v.orelse, ast.Constant) and v.orelse.value is None:
+                v = v.body  # `d.<event> if d.<event> else None`
+            if isinstance(v, ast.Attribute) and _is_dispatcher(v.value, dn) and LIFECYCLE_RE.match(v.attr):
                 out[st.targets[0].id] = v.attr
     return out
 
@@ -299,7 +401,7 @@ def r3(ctx):
     f = ctx.func(f"{SESSION}::Session._after_attach")
     ctx.require(len(f.params) >= 2, "_after_attach has no state parameter")
     recv = f.params[1]
-    sim = _Sim(ctx, f.key, recv, {}, f.params)
+    sim = _Sim(ctx, f.key, recv, _event_aliases(f.node), f.params, _dispatch_names(f.node))
     for K, D in itertools.product([False, True], repeat=2):
         fired, post = sim.run(f.node.body, {"K": K, "A": False, "D": D}, {})
         pre = _one(preds, K, False, D)
@@ -318,7 +420,7 @@ def r3(ctx):
     flag = [p for p in f.params if p == "to_transient"]
     ctx.require(flag, "_detach_states has no to_transient parameter")
     unreset = _key_removals_without_deleted_reset(ctx)
-    sim = _Sim(ctx, f.key, recv, aliases, f.params)
+    sim = _Sim(ctx, f.key, recv, aliases, f.params, _dispatch_names(f.node))
     for T, K, D in itertools.product([False, True], repeat=3):
         key = f"{f.key}:[{'to_transient' if T else 'detach'},{'key=None' if K else 'key'},{'_deleted' if D else 'not-_deleted'}]"
         if K and D and not unreset:
@@ -343,6 +445,9 @@ def r3(ctx):
     sites = [c for c in calls_in(f.node) if (isinstance(c.func, ast.Name) and aliases.get(c.func.id) == "pending_to_persistent")
              or (isinstance(c.func, ast.Attribute) and c.func.attr == "pending_to_persistent")]
     ctx.require(sites, "_register_persistent has no pending_to_persistent dispatch")
+    binds = single_binds(f.node)
+    gp = ctx.cfg(f)
+    from ._helpers_rules_d import call_nodes as _call_nodes
     for i, c in enumerate(sites):
         cur, loop = c, None
         while cur is not None and cur is not f.node:
@@ -350,10 +455,16 @@ def r3(ctx):
             if isinstance(cur, ast.For):
                 loop = cur
                 break
-        it = loop.iter if loop is not None else None
-        good = (isinstance(it, ast.Call) and isinstance(it.func, ast.Attribute) and it.func.attr == "intersection"
-                and len(it.args) == 1 and dotted(it.args[0]) == "self._new"
-                and isinstance(loop.target, ast.Name) and len(c.args) == 2 and unparse(c.args[1]) == loop.target.id)
+        it = expand(loop.iter, binds) if loop is not None else None  # `pending = states.intersection(self._new); for state in pending`
+        while isinstance(it, ast.Call) and isinstance(it.func, ast.Name) and it.func.id in ("set", "list", "tuple", "frozenset", "sorted") and len(it.args) == 1:
+            it = it.args[0]
+        subject = unparse(c.args[1]) if len(c.args) == 2 else None
+        by_iter = (isinstance(it, ast.Call) and isinstance(it.func, ast.Attribute) and it.func.attr == "intersection"
+                   and len(it.args) == 1 and dotted(it.args[0]) == "self._new"
+                   and isinstance(loop.target, ast.Name) and subject == loop.target.id)
+        # or: the dispatch is control-dependent on `<state> in self._new`
+        by_guard = subject is not None and any((f"{subject} in self._new", True) in resolved_atom_set(gp, f.node, n) for n in _call_nodes(gp, lambda x: x is c))
+        good = by_iter or by_guard
         ctx.check(good, f"{f.key}:pending_to_persistent" + (f":{i}" if i else ""),
                   "pending_to_persistent is not restricted to the flushed states that are in self._new (the pending ones)",
                   "for state in states.intersection(self._new)", f.loc)
@@ -389,11 +500,7 @@ def r3(ctx):
             if g.witness(undeletes, g.nodes_for(st)) is None:
                 remembered.add(st.targets[0].id)
     for n in fires:
-        guards = g.edge_guards(n)
-        atoms = set()
-        for t, pol in guards:
-            from ..astutil import test_atoms
-            atoms.update(test_atoms(t, pol))
+        atoms = resolved_atom_set(g, f.node, n, binds={k: v for k, v in bool_binds(f.node).items() if k not in remembered})
         w = g.always_preceded(n, undeletes)
         direct = {f"{recv}._deleted"} if g.witness(undeletes, [n]) is None else set()
         by_flag = any((a, True) in atoms for a in remembered | direct)
@@ -430,9 +537,7 @@ def r3(ctx):
         if ok_all and nm in false_sets:
             new_flags.add(nm)
     for n in fires:
-        atoms = set()
-        for t, pol in g.edge_guards(n):
-            atoms.update(test_atoms(t, pol))
+        atoms = resolved_atom_set(g, inst, n, binds={k: v for k, v in bool_binds(inst).items() if k not in new_flags})
         good = any((nm, True) in atoms for nm in new_flags)
         ctx.check(good, f"{outer.key}._instance:loaded_as_persistent",
                   f"loaded_as_persistent is not control-dependent on a flag set only where a new instance is constructed (flags: {sorted(new_flags)}; guards: {sorted(atoms)})",
@@ -519,6 +624,9 @@ def r4(ctx):
             found[(n.attr, f"{m.relpath}::{q}")] = f"{m.path}:{n.lineno}"
     for (attr, fk), loc in sorted(found.items()):
         reason = OWNERS[attr].get(fk)
+        if reason is None:
+            # a private helper every use of which is a call from an enumerated owner writes on the owner's behalf
+            reason = transitive_owner(ctx, fk, OWNERS[attr])
         ctx.check(reason is not None, f"{fk}:writes:{attr}",
                   f"`{attr}` of an instance state is written outside the enumerated lifecycle owners", reason or "", loc)
     for attr, owners in OWNERS.items():
@@ -552,7 +660,7 @@ def r5(ctx):
     loops = [n for n in f.node.body if isinstance(n, ast.For) and isinstance(n.target, ast.Name)]
     ctx.require(len(loops) == 1 and "to_transient" in f.params, "_detach_states is not one loop over the states with a to_transient flag")
     lp = loops[0]
-    sim = _Sim(ctx, f.key, lp.target.id, _event_aliases(f.node), f.params)
+    sim = _Sim(ctx, f.key, lp.target.id, _event_aliases(f.node), f.params, _dispatch_names(f.node))
     for T, K, D in itertools.product([False, True], repeat=3):
         if K and D:
             continue  # not a state an object can be in: the invariant checked here excludes it
